@@ -26,7 +26,8 @@ COQ = os.path.join(ROOT, "coq")
 OCAML = os.path.join(ROOT, "ocaml")
 HARNESS = os.path.join(ROOT, "harness")
 WORK = os.path.join(ROOT, "work")
-REPO = "/repo"
+REPO = os.environ.get("VERIF_REPO", "/repo")   # alternative tree (scratch worktree) for mutation testing
+ALT = "" if REPO == "/repo" else "-" + hashlib.sha1(REPO.encode()).hexdigest()[:8]
 
 sys.path.insert(0, os.path.join(ROOT, "lib"))
 from props import PROPS, ENGINES  # noqa: E402
@@ -188,13 +189,20 @@ def build_model(engine):
 
 
 def build_harness(engine):
-    gs = os.path.join(HARNESS, "go.sum")
-    src = open(os.path.join(REPO, "go.sum")).read()
-    if not os.path.exists(gs) or open(gs).read() != src:
-        open(gs, "w").write(src)
     os.makedirs(os.path.join(HARNESS, "bin"), exist_ok=True)
-    tags = "verif"
-    rc, out = sh(["go", "build", "-tags", tags, "-o", os.path.join("bin", engine), "./cmd/" + engine],
+    src = open(os.path.join(REPO, "go.sum")).read()
+    if not ALT:
+        gs = os.path.join(HARNESS, "go.sum")
+        if not os.path.exists(gs) or open(gs).read() != src:
+            open(gs, "w").write(src)
+        modflag = []
+    else:
+        # build against a scratch tree without touching harness/go.mod: alternative modfile
+        alt = os.path.join(WORK, "alt%s.mod" % ALT)
+        open(alt, "w").write(open(os.path.join(HARNESS, "go.mod")).read().replace("=> /repo", "=> " + REPO))
+        open(alt[:-4] + ".sum", "w").write(src)
+        modflag = ["-modfile=" + alt]
+    rc, out = sh(["go", "build"] + modflag + ["-tags", "verif", "-o", os.path.join("bin", engine + ALT), "./cmd/" + engine],
                  cwd=HARNESS, env=GOENV, timeout=1800)
     return rc == 0, out
 
@@ -263,7 +271,7 @@ def run_impl(engine, ops_text, timeout=1800, extra_env=None):
     env = dict(GOENV)
     if extra_env:
         env.update(extra_env)
-    p = subprocess.run([os.path.join(HARNESS, "bin", engine), "run"], input=ops_text, text=True,
+    p = subprocess.run([os.path.join(HARNESS, "bin", engine + ALT), "run"], input=ops_text, text=True,
                        stdout=subprocess.PIPE, stderr=subprocess.PIPE, timeout=timeout, env=env)
     return p.returncode, p.stdout, p.stderr
 
@@ -430,7 +438,7 @@ def write_replay(prop, engine, cid, ops, fail, impl_out, model_out, note=""):
 
 
 def gen_cases(engine, seed, n, tier, prop):
-    rc, out = sh([os.path.join(HARNESS, "bin", engine), "gen", "-seed", str(seed), "-n", str(n), "-tier", tier, "-prop", prop],
+    rc, out = sh([os.path.join(HARNESS, "bin", engine + ALT), "gen", "-seed", str(seed), "-n", str(n), "-tier", tier, "-prop", prop],
                  env=GOENV, timeout=600)
     if rc != 0:
         raise RuntimeError("generator failed: " + out[-2000:])
@@ -600,8 +608,9 @@ def check(prop, tier):
     ev["assumptions"] = cfg.get("assumptions", [])
     if tier == "thorough" and thm_ok:
         ev["coverage"]["coqchk"] = coqchk(prop)
-    os.makedirs(os.path.join(ROOT, "evidence"), exist_ok=True)
-    json.dump(ev, open(os.path.join(ROOT, "evidence", prop + ".json"), "w"), indent=1)
+    evdir = os.path.join(ROOT, "evidence") if not ALT else os.path.join(WORK, "evidence" + ALT)
+    os.makedirs(evdir, exist_ok=True)
+    json.dump(ev, open(os.path.join(evdir, prop + ".json"), "w"), indent=1)
 
     for l in known_lines:
         print(l)
